@@ -60,40 +60,44 @@ def run_chunker_check(prop, tier):
     traces = []
     total = 0
     procs = []
+    trace_args = {}
     groups = [(a, w, b) for a in ("rollsum", "buzhash") for w in (1, 2, 3, 4) for b in (1, 2)] + [("fixed", 1, 1)]
     lmax = 6 if tier == "quick" else 8
     if prop == "C09":
         for (a, w, b) in groups:
             tr = os.path.join(workdir, "small_%s_%d_%d.ndjson" % (a, w, b))
             traces.append(tr)
-            procs.append(subprocess.Popen(["timeout", "1500", VH, "chunker-l1", "--mode", "small", "--alg", a, "--w", str(w), "--bits", str(b), "--lmax", str(lmax),
-                                           "--scripts", scripts, "--out", tr], stdout=subprocess.PIPE, stderr=subprocess.PIPE))
+            trace_args[tr] = ["--mode", "small", "--alg", a, "--w", str(w), "--bits", str(b), "--lmax", str(lmax),
+                                           "--scripts", scripts]
+            procs.append(subprocess.Popen(["timeout", "1500", VH, "chunker-l1"] + trace_args[tr] + ["--out", tr], stdout=subprocess.PIPE, stderr=subprocess.PIPE))
         nbig = 60 if tier == "quick" else 600
         for i in range(4):
             tr = os.path.join(workdir, "big_%d.ndjson" % i)
             traces.append(tr)
-            procs.append(subprocess.Popen(["timeout", "2400", VH, "chunker-l1", "--mode", "big", "--count", str(nbig // 4), "--seed", str(seed() * 4 + i),
-                                           "--maxlen", "300000" if tier == "quick" else "3000000", "--out", tr], stdout=subprocess.PIPE, stderr=subprocess.PIPE))
+            trace_args[tr] = ["--mode", "big", "--count", str(nbig // 4), "--seed", str(seed() * 4 + i),
+                                           "--maxlen", "300000" if tier == "quick" else "3000000"]
+            procs.append(subprocess.Popen(["timeout", "2400", VH, "chunker-l1"] + trace_args[tr] + ["--out", tr], stdout=subprocess.PIPE, stderr=subprocess.PIPE))
     else:
         for (a, w, b) in groups[:-1]:
             tr = os.path.join(workdir, "smallpairs_%s_%d_%d.ndjson" % (a, w, b))
             traces.append(tr)
-            procs.append(subprocess.Popen(["timeout", "1500", VH, "chunker-l1", "--mode", "smallpairs", "--alg", a, "--w", str(w), "--bits", str(b), "--lmax", str(lmax - 1),
-                                           "--out", tr], stdout=subprocess.PIPE, stderr=subprocess.PIPE))
+            trace_args[tr] = ["--mode", "smallpairs", "--alg", a, "--w", str(w), "--bits", str(b), "--lmax", str(lmax - 1)]
+            procs.append(subprocess.Popen(["timeout", "1500", VH, "chunker-l1"] + trace_args[tr] + ["--out", tr], stdout=subprocess.PIPE, stderr=subprocess.PIPE))
         npairs = 2400 if tier == "quick" else 40000
         for i in range(8):
             tr = os.path.join(workdir, "pairs_%d.ndjson" % i)
             traces.append(tr)
-            procs.append(subprocess.Popen(["timeout", "2400", VH, "chunker-l1", "--mode", "pairs", "--count", str(npairs // 8), "--seed", str(seed() * 8 + i),
-                                           "--maxlen", "40000", "--out", tr], stdout=subprocess.PIPE, stderr=subprocess.PIPE))
+            trace_args[tr] = ["--mode", "pairs", "--count", str(npairs // 8), "--seed", str(seed() * 8 + i),
+                                           "--maxlen", "40000"]
+            procs.append(subprocess.Popen(["timeout", "2400", VH, "chunker-l1"] + trace_args[tr] + ["--out", tr], stdout=subprocess.PIPE, stderr=subprocess.PIPE))
     if prop == "C10":
         # streams of more than 2^32 bytes (a byte counter that wraps, a position kept in 32 bits): ~20 s each, all in parallel
         huge = [("rollsum", 48, 13)] if tier == "quick" else [("rollsum", 48, 13), ("rollsum", 100, 12), ("rollsum", 3, 14), ("buzhash", 48, 13), ("buzhash", 20, 12)]
         for (a, w, b) in huge:
             tr = os.path.join(workdir, "hugepair_%s_%d.ndjson" % (a, w))
             traces.append(tr)
-            procs.append(subprocess.Popen(["timeout", "2400", VH, "chunker-l1", "--mode", "hugepair", "--alg", a, "--w", str(w), "--bits", str(b), "--seed", str(seed()),
-                                           "--out", tr], stdout=subprocess.PIPE, stderr=subprocess.PIPE))
+            trace_args[tr] = ["--mode", "hugepair", "--alg", a, "--w", str(w), "--bits", str(b), "--seed", str(seed())]
+            procs.append(subprocess.Popen(["timeout", "2400", VH, "chunker-l1"] + trace_args[tr] + ["--out", tr], stdout=subprocess.PIPE, stderr=subprocess.PIPE))
     for p in procs:
         o, e = p.communicate()
         if p.returncode != 0:
@@ -134,7 +138,8 @@ def run_chunker_check(prop, tier):
         if len(json.dumps(ev)) > 20000:
             ev = {k: ev[k] for k in ev if k not in ("chunks", "ba", "bb", "bounds", "tail_a", "tail_b", "head_a", "head_b")}
         out.violation(sig, "%s (%s w=%s bits=%s min=%s max=%s data=%s)" % (v["rule"], grp.get("alg", ev.get("alg")), grp.get("w", ev.get("w")), grp.get("bits", ev.get("bits")), ev.get("min"), ev.get("max"), str(ev.get("data"))[:80]),
-                      {"kind": "chunker_l1", "group": grp, "event": ev, "verdict": {k: v[k] for k in ("rule", "scenario", "line")}, "trace_file": os.path.basename(v["trace"])})
+                      {"kind": "chunker_l1", "group": grp, "event": ev, "verdict": {k: v[k] for k in ("rule", "scenario", "line")}, "trace_file": os.path.basename(v["trace"]),
+                       "vh_args": trace_args.get(v["trace"])})
     samples = []
     for tr in traces[:1] + traces[-1:]:
         with open(tr) as f:
@@ -162,6 +167,22 @@ def replay_chunker(path):
     rp = r["replay"]
     ev = rp.get("event", {})
     grp = rp.get("group", {})
+    if rp.get("vh_args") and ev.get("ev") != "run":
+        # the same generator run again (same mode, parameters and seed), judged again; the verdict is looked for at the same event
+        workdir = os.path.join(WORK, "replay_%d" % os.getpid())
+        os.makedirs(workdir, exist_ok=True)
+        tr = os.path.join(workdir, "t.ndjson")
+        vh_run(rp["vh_args"] + ["--out", tr])
+        verdicts, summary = tlc_validate("ChunkerTrace", "ChunkerTrace.cfg", [tr])
+        shutil.rmtree(workdir, ignore_errors=True)
+        same = [x for x in verdicts if x["line"] == rp["verdict"]["line"]]
+        for x in same:
+            print("VERDICT", x["rule"], "line", x["line"])
+        if same:
+            print("VIOLATION property=%s replay=%s" % (r["property"], path))
+            return 1
+        print("replay: no verdict (accepted)")
+        return 0
     if ev.get("ev") == "run":
         # re-run the group up to the failing string's length (the inferred function needs the other runs of the group)
         workdir = os.path.join(WORK, "replay_%d" % os.getpid())
